@@ -103,6 +103,34 @@ theorem inv_step (s : S) (l : Label) (h : Inv s) : Inv (step s l).1 := by
         · rw [if_neg ha]
           exact ⟨Or.inl rfl, fun h => by cases h⟩
 
+  | restart g =>
+    simp only [step]
+    by_cases hq : (!(s.threads.all fun t => t.pc == .idle)) = true
+    · rw [if_pos hq]; exact ⟨h1, h2⟩
+    · rw [if_neg hq]
+      have hidle : allIdle s = true := by
+        unfold allIdle; simpa using hq
+      have hnp : s.st ≠ .polling := fun hp => by
+        have := h2 hp; rw [hidle] at this; cases this
+      refine ⟨?_, fun hp => ?_⟩
+      · cases g with
+        | true => simp [loaded]
+        | false =>
+          simp only [Bool.false_eq_true, if_false]
+          rcases h1 with h1 | h1 | h1
+          · left; rw [h1]; simp [loaded]
+          · right; left; rw [h1.1]; exact ⟨rfl, rfl⟩
+          · exact absurd h1.1 hnp
+      · exfalso
+        cases g with
+        | true => simp [loaded] at hp; exact hnp hp
+        | false =>
+          simp only [Bool.false_eq_true, if_false] at hp
+          rcases h1 with h1 | h1 | h1
+          · rw [h1] at hp; simp [loaded] at hp; exact hnp hp
+          · rw [h1.1] at hp; simp [loaded] at hp
+          · exact hnp h1.1
+
 theorem inv_reachable {n : Nat} {s : S} (h : Reachable n s) : Inv s := by
   induction h with
   | init => exact inv_init n
